@@ -360,6 +360,10 @@ func checkC06(p *Program, r *Report) {
 						}
 					}
 				}
+				if len(intBlocks) == 0 && len(floatBlocks) > 0 {
+					r.Fail("C06.R9", g.Name()+"|integer reading before float reading", p.Pos(g.Pos()),
+						"the string is read with the float parse only: an integer numeral is rounded to float64 before it is compared (and turned back into an integer afterwards at best), so \"9007199254740993\" equals 9007199254740992")
+				}
 				if len(intBlocks) > 0 && len(floatBlocks) > 0 {
 					early := ""
 					noInt := reachable(g.Blocks[0], func(x *ssa.BasicBlock) bool { return intBlocks[x] && !floatBlocks[x] })
